@@ -136,7 +136,7 @@ func main() {
 		bin[o.Name] = o.Fn
 	}
 	// operand pairs where something collides (shared vertices, crossings, collinear overlap, holes, overlapping members)
-	pairs := [][2]int{{11, 13}, {11, 12}, {5, 7}, {9, 10}, {15, 16}, {21, 14}, {22, 4}, {18, 11}, {6, 12}, {20, 11}, {25, 26}, {19, 13}}
+	pairs := [][2]int{{11, 13}, {11, 12}, {5, 7}, {9, 10}, {15, 16}, {21, 14}, {22, 4}, {18, 11}, {6, 12}, {20, 11}, {25, 26}, {19, 13}, {27, 28}, {29, 14}}
 	if many {
 		pairs = nil
 		for i := range ops {
